@@ -1,3 +1,5 @@
+//go:build go1.25
+
 package props
 
 // c14_workers — model-based stateful testing of bigbuff.Workers inside a synctest bubble (property C14:
